@@ -123,7 +123,9 @@ func (c *IClient) end(call *Call, err error) error {
 		return err
 	}
 	c.mu.Lock()
-	if err == nil && call.ambiguous != nil {
+	if err != nil {
+		call.ambiguous = nil // the server rejected the write: a plain failure
+	} else if call.ambiguous != nil {
 		err = call.ambiguous // the write was applied; the caller is told it failed
 	}
 	if err != nil {
